@@ -26,6 +26,19 @@ CLAIMED = {
    note="Trusted: as C05. Back-pointers are checked by the harness only (the functional tree has none).",
    technique="Coq proof (invariant by induction over operation histories) + correspondence",
    ref="5 (C04)"),
+ "C07": dict(
+   text="Coq theorems (Properties_C07.v, closed under the global context) over the node-level accessor model "
+        "(n_get_*/n_set_*, setter/getter/typed_look/elem_getter of Api.v/ApiStep.v): the complete success tables of "
+        "setters and typed lookups as boolean functions of (stored type, requested kind, auto-convert, value) for all "
+        "values; int<->int64 exactly when the value fits; float<->integer only with auto-convert; a 32-bit int to "
+        "double exactly (b64_is_int, proved from an axiom-free binary64 encoder); bool/string never convert; "
+        "set-then-get; mismatching get = 0/NULL or failure with no output; mismatching set leaves the configuration "
+        "unchanged; the direct, by-name, by-path and by-index families apply the same node function. Tied to /repo "
+        "by the exhaustive type x boundary-value x accessor-family x auto-convert grid plus random histories on every run.",
+   note="Trusted: as C05. (int)double outside its defined domain is a distinguished Unspec outcome that theorems "
+        "carry explicitly and generators avoid.",
+   technique="Coq proof (case analysis over the conversion table + arithmetic of the binary64 encoding) + correspondence",
+   ref="5 (C07)"),
 }
 
 REASON_PENDING = "not decided in the committed state of this round: the Coq theorem for this property is not yet in the tree, and a property is never claimed on testing alone (DESIGN.md section 11)"
